@@ -85,6 +85,9 @@ def _new_summary() -> dict:
     }
 
 
+_HISTORY: list[int] = []  # unit indices this worker process has executed so far (its process history)
+
+
 def work_batch(pid: str, start: int, count: int, seed: int, tier: str, want_digests: bool = False) -> dict:
     faulthandler.enable()
     _pin()
@@ -109,16 +112,17 @@ def work_batch(pid: str, start: int, count: int, seed: int, tier: str, want_dige
                 if o.sig is not None:
                     if o.known is not None:
                         s["known_seen"][o.known] = s["known_seen"].get(o.known, 0) + 1
-                    elif len(s["violations"]) < 5:
+                    elif len(s["violations"]) < 8:
                         s["violations"].append({
                             "index": index, "tape": tape.to_json(), "sig": list(o.sig),
-                            "detail": o.detail, "decoded": o.decoded,
+                            "detail": o.detail, "decoded": o.decoded, "prelude": list(_HISTORY),
                         })
                     else:
                         s["counters"]["violations_not_kept"] = s["counters"].get("violations_not_kept", 0) + 1
                 elif len(s["samples"]) < 2 and (o.case is not None or o.cases) and o.decoded:
                     s["samples"].append({"index": index, "tape": tape.to_json(), **o.decoded})
             s["units"] += 1
+            _HISTORY.append(index)
             if want_digests:
                 s["unit_digests"][index] = digest(traces)
         except Exception:
@@ -188,6 +192,16 @@ def minimise_job(pid: str, viol: dict) -> dict:
 def replay_file(pid: str, path: str) -> int:
     with open(path) as f:
         rep = json.load(f)
+    prelude = rep.get("prelude_units") or []
+    if prelude:
+        # the violation depends on what this process did before the failing run: re-execute that history first
+        mod = load_prop(pid)
+        pseed = int(rep.get("verif_seed", 0))
+        ptier = rep.get("tier", "quick")
+        for index in prelude:
+            for _tp, _o in unit_runs(mod, int(index), pseed, ptier):
+                pass
+        print(f"PRELUDE property={pid} units={len(prelude)} re-executed")
     o = run_tape_json(pid, rep["tape"])
     if o.sig is None:
         print(f"REPLAY property={pid} sig=null")
@@ -199,6 +213,56 @@ def replay_file(pid: str, path: str) -> int:
         return 0
     print(f"VIOLATION property={pid} replay={path}")
     return 1
+
+
+def _prelude_search(pid: str, seed: int, tier: str, cands: list, replay_dir: str):
+    """Try to reproduce a violation that needs process history.  Returns (sig, path) or None."""
+    deadline = time.monotonic() + 240
+
+    def attempt(v, prelude):
+        path = os.path.join(replay_dir, f"{pid}-{seed}-{v['index']}-h{len(prelude)}-{digest([v['tape']['streams'], prelude])[:8]}.json")
+        rep = {"property": pid, "verif_seed": seed, "tier": tier, "unit_index": v["index"], "signature": v["sig"],
+               "prelude_units": prelude, "tape": v["tape"], "original_tape": v["tape"], "minimisation_runs": 0,
+               "detail": v["detail"], "decoded": v["decoded"],
+               "note": "the failing run depends on what the process did before it; prelude_units are re-executed first"}
+        with open(path, "w") as f:
+            json.dump(rep, f, indent=1, default=repr)
+        try:
+            sig, _p = fresh_replay_sig(pid, path)
+        except Exception:
+            sig = None
+        if sig == v["sig"]:
+            return path
+        os.remove(path)
+        return None
+
+    for v in cands[:4]:
+        hist = [i for i in v.get("prelude", []) if i != v["index"]][-400:]
+        if not hist or time.monotonic() > deadline:
+            continue
+        full = attempt(v, hist)
+        if full is None:
+            continue
+        best, best_pre = full, hist
+        # shortest suffix that still reproduces (assuming the leaked state persists once set)
+        lo, hi = 1, len(hist)
+        while lo < hi and time.monotonic() < deadline:
+            mid = (lo + hi) // 2
+            pth = attempt(v, hist[-mid:])
+            if pth is not None:
+                if best != pth:
+                    os.remove(best)
+                best, best_pre, hi = pth, hist[-mid:], mid
+            else:
+                lo = mid + 1
+        # the first unit of that suffix alone
+        if len(best_pre) > 1 and time.monotonic() < deadline:
+            pth = attempt(v, best_pre[:1])
+            if pth is not None:
+                os.remove(best)
+                best = pth
+        return (v["sig"], best)
+    return None
 
 
 def fresh_replay_sig(pid: str, path: str, hashseed: str = "0"):
@@ -349,7 +413,9 @@ def main() -> int:
         max_units = getattr(mod, "MAX_UNITS", {}).get(tier)
         while True:
             now = time.monotonic()
-            while len(pending) < workers + 4 and now < explore_deadline and not total["violations"] \
+            # keep exploring after the first violation until a few candidates exist: one that depends on state leaked
+            # from an earlier run of the same worker does not replay, a later one may
+            while len(pending) < workers + 4 and now < explore_deadline and len(total["violations"]) < 6 \
                     and len(harness_msgs) == 0 and (max_units is None or next_index < max_units):
                 n = batch if max_units is None else min(batch, max_units - next_index)
                 f = pool.submit(work_batch, pid, next_index, n, seed, tier)
@@ -395,55 +461,73 @@ def main() -> int:
             if dig_runs[0].get(i) != dig_runs[1].get(i) or dig_runs[0].get(i) is None:
                 det["in_process_repeat_mismatches"] += 1
         det["fresh_interpreter_units"] = n_fresh
+        soft_msgs: list[str] = []
         if det["in_process_repeat_mismatches"] or det["fresh_interpreter_mismatches"]:
-            harness_msgs.append(f"determinism self-test mismatch: {det}")
+            # not fatal by itself: if a violation found below replays in a fresh process it is reported (the replay is
+            # the proof); without one the run ends with "no verdict".  State leaking between runs of one worker
+            # process (itself a symptom some changes to jinja produce) shows up here first.
+            soft_msgs.append(f"determinism self-test mismatch: {det}")
 
         phase('violations')
         # ---- violations: minimise + verify in fresh process -------------------
         reported = []
         if total["violations"] and not harness_msgs:
             os.makedirs(REPLAY_DIR, exist_ok=True)
-            seen_sigs = set()
+            by_sig: dict = {}
             for v in total["violations"]:
-                key = json.dumps(v["sig"])
-                if key in seen_sigs or len(seen_sigs) >= 3:
-                    continue
-                seen_sigs.add(key)
-                try:
-                    m = pool.submit(minimise_job, pid, v).result(timeout=600)
-                except Exception as e:
-                    harness_msgs.append(f"minimisation failed: {e!r}")
-                    continue
-                if not m["ok"]:
-                    harness_msgs.append(f"violation {v['sig']} at unit {v['index']} is not replayable: {m}")
-                    continue
-                path = os.path.join(REPLAY_DIR, f"{pid}-{seed}-{v['index']}-{digest(m['streams'])[:8]}.json")
-                rep = {
-                    "property": pid, "verif_seed": seed, "unit_index": v["index"],
-                    "signature": m["sig"], "tape": {"seed": None, "streams": m["streams"]},
-                    "original_tape": v["tape"], "minimisation_runs": m["runs"],
-                    "detail": m["detail"], "decoded": m["decoded"],
-                }
-                with open(path, "w") as f:
-                    json.dump(rep, f, indent=1, default=repr)
-                sig, p = fresh_replay_sig(pid, path)
-                if sig != m["sig"] and m.get("minimised"):
-                    # the shrunk tape does not replay in a fresh process: retry with the original tape
-                    rep["tape"] = v["tape"]
-                    rep["minimisation_runs"] = 0
-                    rep["signature"] = v["sig"]
-                    rep["detail"], rep["decoded"] = v["detail"], v["decoded"]
-                    m = dict(m, sig=v["sig"], minimised=False)
-                    with open(path, "w") as f:
-                        json.dump(rep, f, indent=1, default=repr)
-                    sig, p = fresh_replay_sig(pid, path)
-                if sig != m["sig"]:
-                    harness_msgs.append(f"minimised violation did not reproduce in a fresh process: {sig} vs {m['sig']}\n{p.stdout[-1500:]}{p.stderr[-1500:]}")
-                    continue
-                reported.append((m["sig"], path))
-                out_lines.append(f"VIOLATION property={pid} replay={path}")
+                by_sig.setdefault(json.dumps(v["sig"]), []).append(v)
+            not_replayed = []
+            for key, cands in list(by_sig.items())[:3]:
+                done = False
+                for ci, v in enumerate(cands[:16]):
+                    # the first candidate is minimised; if neither its shrunk nor its original tape replays in a fresh
+                    # process (behaviour that depends on state outside the tape, e.g. heap addresses), further
+                    # candidates of the same signature are tried unminimised
+                    attempts = []
+                    if ci == 0:
+                        try:
+                            m = pool.submit(minimise_job, pid, v).result(timeout=600)
+                        except Exception as e:
+                            harness_msgs.append(f"minimisation failed: {e!r}")
+                            break
+                        if m.get("minimised"):
+                            attempts.append((m["streams"], m["sig"], m["detail"], m["decoded"], m["runs"]))
+                    attempts.append((v["tape"]["streams"], v["sig"], v["detail"], v["decoded"], 0))
+                    for streams, sig_, detail, decoded, runs in attempts:
+                        path = os.path.join(REPLAY_DIR, f"{pid}-{seed}-{v['index']}-{digest(streams)[:8]}.json")
+                        rep = {
+                            "property": pid, "verif_seed": seed, "unit_index": v["index"],
+                            "signature": sig_, "tape": {"seed": None, "streams": streams},
+                            "original_tape": v["tape"], "minimisation_runs": runs,
+                            "detail": detail, "decoded": decoded,
+                        }
+                        with open(path, "w") as f:
+                            json.dump(rep, f, indent=1, default=repr)
+                        sig, p = fresh_replay_sig(pid, path)
+                        if sig == sig_:
+                            reported.append((sig_, path))
+                            out_lines.append(f"VIOLATION property={pid} replay={path}")
+                            done = True
+                            break
+                        os.remove(path)
+                    if done:
+                        break
+                if not done:
+                    # state leaked from an earlier run of the same worker process?  replay with that worker's history
+                    # (the units it executed before), then shrink the history to the shortest suffix / single unit
+                    found = _prelude_search(pid, seed, tier, cands, REPLAY_DIR)
+                    if found is not None:
+                        reported.append(found)
+                        out_lines.append(f"VIOLATION property={pid} replay={found[1]}")
+                        done = True
+                if not done:
+                    not_replayed.append(key)
             if reported:
                 exit_code = 1
+                soft_msgs = []
+            elif not_replayed:
+                harness_msgs.append(f"violation(s) {not_replayed} seen {sum(len(by_sig[k]) for k in not_replayed)} time(s) during "
+                                    "exploration but none of the candidate tapes reproduced in a fresh process")
     finally:
         procs = list(getattr(pool, "_processes", {}).values())
         pool.shutdown(wait=False, cancel_futures=True)
@@ -464,6 +548,7 @@ def main() -> int:
             if kr.get("witness_reproduces") or kr.get("seen_in_exploration"):
                 out_lines.insert(0, f"KNOWN-FINDING: property={pid} {e['id']} {e['text']}")
 
+    harness_msgs.extend(soft_msgs)
     if harness_msgs:
         for m in harness_msgs[:5]:
             print("HARNESS-ERROR " + m, file=sys.stderr)
